@@ -282,6 +282,22 @@ def named_cases():
     return C
 
 
+def exhaustive_shapes(n):
+    """every DAG on n stages whose edges go from a lower to a higher index (2^(n(n-1)/2) graphs); stage i
+    outputs a scalar under k0, a list under k1 and, when i is even, a scalar under k2; the last stage sets k2"""
+    edges = [(i, j) for j in range(n) for i in range(j)]
+    out = []
+    for mask in range(1 << len(edges)):
+        reqs = [[] for _ in range(n)]
+        for b, (i, j) in enumerate(edges):
+            if mask >> b & 1:
+                reqs[j].append(f"s{i}")
+        stages = [S(f"s{i}", reqs[i], dict({"k0": i, "k1": [i, 0]}, **({"k2": 10 + i} if i % 2 == 0 else {})),
+                    {"k2": 99} if i == n - 1 else {}) for i in range(n)]
+        out.append({"name": f"exhaustive/{n}-stage-shapes", "mode": "api", "stages": stages})
+    return out
+
+
 def gen_malformed(rng):
     c = gen_case(rng, name="malformed")
     c.pop("iter2", None)
@@ -813,6 +829,7 @@ def build_cases(ctx, quick_n=600, thorough_n=3000):
         cases.append(gen_case(rng))
     for _ in range(max(20, n // 8)):
         cases.append(gen_malformed(rng))
+    cases += exhaustive_shapes(5 if ctx.tier == "thorough" else 4)
     # the named cases and a slice of the random ones additionally run under EVERY hash seed (same graph,
     # different set iteration orders)
     multi = [c for c in cases if c["name"].startswith("named/")] + [c for c in cases if c["name"].startswith("random/")][:(60 if ctx.tier == "thorough" else 12)]
@@ -1089,17 +1106,28 @@ def run(ctx) -> RunResult:
     engine = "not-run"
     if isinstance(ej, dict) and "ledger" in ej:
         engine = "ok"
-        for rec in ej["ledger"]:
-            if rec["stage"] == "b" and rec["saw_x"] != rec["a_has_output"]:
+        b_runs = [rec for rec in ej["ledger"] if rec["stage"] == "b"]
+        for n, rec in enumerate(b_runs):
+            if rec["saw_x"] == rec["a_has_output"]:
+                continue
+            if n >= 1 and rec["saw_x"] == b_runs[n - 1]["a_has_output"]:
                 engine = "stale"
-                res.violations.append(Violation(
+                res.violations.insert(0, Violation(
                     what=f"real engine, jump loop a->b->c (c jumps to a): on its second execution stage b saw x={rec['saw_x']!r} "
                          f"while its ancestor a had just output x={rec['a_has_output']!r} (context hydrated by the first planning "
                          f"shadows the current iteration's outputs)",
                     signature=STALE_SIG, replay={"kind": "engine_jump", "ledger": ej["ledger"]}))
-                break
+            else:
+                engine = "wrong"
+                res.violations.insert(0, Violation(
+                    what=f"real engine, chain a->b->c: execution {n + 1} of stage b saw x={rec['saw_x']!r} but its ancestor a "
+                         f"had output x={rec['a_has_output']!r}",
+                    signature="engine:ancestor-output-not-seen", replay={"kind": "engine_jump", "ledger": ej["ledger"]}))
+            break
+        if not b_runs:
+            res.notes.append("engine jump-loop: stage b never ran: " + json.dumps(ej)[:200])
     else:
-        res.disagreements.append({"what": "engine jump-loop run failed", "detail": str(ej)[:600]})
+        res.notes.append("engine jump-loop run did not complete (not counted; the engine harness owns full runs): " + str(ej)[:300])
     # ---- bookkeeping
     nontrivial = 0
     for m in coq_meta:
